@@ -15,6 +15,9 @@ FORMATS = "BHIQbhiq?x"
 SIZES = dict(B=1, H=2, I=4, Q=8, b=1, h=2, i=4, q=8, x=8)
 SIZES["?"] = 1
 SIZES.update({"3H": 6, "3B": 3, "2I": 8})     # multi-element formats
+# formats whose native size differs from the standard one ('l', 'L') or that
+# contain padding ('hI', 'BI'): layout and access must agree on native rules
+SIZES.update({"l": 8, "L": 8, "hI": 8, "BI": 8})
 _IDENT = {"?": "bool"}
 
 # boundary values per format; 'x' (fixed point, 1e-5) values are dyadic so
@@ -38,11 +41,31 @@ VALUES["3B"] = [(0, 1, 2), (0xff, 0, 0x80), (1, 0xff, 0x7f),
                 (0x12, 0x56, 0x9a), (0xff, 0xff, 0xff)]
 VALUES["2I"] = [(0, 1), (0xffffffff, 0), (1, 0x80000000),
                 (0x12345678, 0x9abcdef0), (0xffffffff, 0xffffffff)]
+VALUES["l"] = [0, 1, -1, 0x7fffffffffffffff, -0x8000000000000000]
+VALUES["L"] = [0, 1, 0x7fffffffffffffff, 0x8000000000000000,
+               0xffffffffffffffff]
+VALUES["hI"] = [(0, 1), (-1, 0), (1, 0xffffffff), (0x1234, 0x9abcdef0),
+                (-0x8000, 0x80000000)]
+VALUES["BI"] = [(0, 1), (0xff, 0), (1, 0xffffffff), (0x12, 0x9abcdef0),
+                (0xff, 0xffffffff)]
 NVALUES = 5
 # a value whose encoding has no zero byte, to find the bytes a variable owns
 PROBE = {"B": 0xff, "H": 0xffff, "I": 0xffffffff, "Q": 0xffffffffffffffff,
          "b": -1, "h": -1, "i": -1, "q": -1, "?": True, "x": -0.5,
-         "3H": (0xffff,) * 3, "3B": (0xff,) * 3, "2I": (0xffffffff,) * 2}
+         "3H": (0xffff,) * 3, "3B": (0xff,) * 3, "2I": (0xffffffff,) * 2,
+         "l": -1, "L": 0xffffffffffffffff, "hI": (-1, 0xffffffff),
+         "BI": (0xff, 0xffffffff)}
+
+
+def owned_pattern(fmt):
+    """offsets (relative to the variable's start) of the bytes that become
+    non-zero when PROBE[fmt] is written: all of them, except padding"""
+    import struct
+    if fmt == "x":
+        return list(range(8))
+    v = PROBE[fmt]
+    raw = struct.pack(fmt, *(v if isinstance(v, tuple) else (v,)))
+    return [i for i, b in enumerate(raw) if b]
 
 
 def value_for(fmt, k, extra=0):
@@ -124,8 +147,31 @@ class Dev_sub_multi2(Device):
     v2 = DeviceVar("H")
 
 
+class Dev_sub_native(Device):
+    """formats whose native size is not the standard one"""
+    FMTS = ("l", "B", "L")
+    v0 = DeviceVar("l")
+    v1 = DeviceVar("B")
+    v2 = DeviceVar("L")
+
+
+class Dev_sub_padded(Device):
+    """multi-member formats with padding inside"""
+    FMTS = ("hI", "H", "BI")
+    v0 = DeviceVar("hI")
+    v1 = DeviceVar("H")
+    v2 = DeviceVar("BI")
+
+
+class Dev_sub_padded2(Device):
+    FMTS = ("BI", "l")
+    v0 = DeviceVar("BI")
+    v1 = DeviceVar("l")
+
+
 for _cls in (Dev_base_H_q, Dev_sub_B_x, Dev_base_ovr, Dev_sub_ovr,
-             Dev_sub_multi, Dev_sub_multi2):
+             Dev_sub_multi, Dev_sub_multi2, Dev_sub_native, Dev_sub_padded,
+             Dev_sub_padded2):
     CLASSES[_cls.__name__] = _cls
     ORDER.append(_cls.__name__)
 
